@@ -56,6 +56,7 @@ pub fn generate(rng: &mut Rng, tier: Tier, stats: &mut GenStats) -> Scenario {
         mutations: vec![],
         schedule: vec![],
         triggers: vec![],
+        lazy: false,
     }
 }
 
